@@ -360,6 +360,9 @@ def check_wire(case, cfr, sfr, rc, rs_):
 # ------------------------------------------------------------------------------------------------
 def oracle_ref(case, out):
     steps = out.split(";")
+    why = lg.alias_violation(case, case["addrs"])
+    if why:
+        return why
     spec = lg.ArraySpec(case, case["addrs"])
     open_conns = {}          # otId -> serial
     script = case["steps"]
@@ -548,6 +551,9 @@ def oracle_plx(case, out):
             recs.index("server-closed-the-session") - 1, case["ops"][max(recs.index("server-closed-the-session") - 1, 0)]["op"])
     if len(recs) != len(case["ops"]) + 2:
         return "%d records for %d operations" % (len(recs), len(case["ops"]))
+    why = lg.alias_violation(case, case["addrs"])
+    if why:
+        return why
     spec = lg.ArraySpec(case, case["addrs"])
     for k, (op, rec) in enumerate(zip(case["ops"], recs)):
         res, dump = rec.split("@")
@@ -721,6 +727,8 @@ def fo_usable(fo, tags):
 
 def ref_case(rng, tier, mode):
     tags = lg.rand_tags(rng, max_tags=4, max_len=rng.choice([13, 40, 300]), big=(tier == "thorough"))
+    if rng.random() < 0.06:
+        tags = lg.many_tags(rng, types=("DINT", "INT")) + tags      # auto-allocated ids beyond 10
     steps = [{"m": "reg", "ctx": rctx(rng)}]
     n = rng.randint(1, 14)
     fo = None
@@ -817,6 +825,8 @@ def plx_case(rng, tier):
         if addr and any(t.get("addr") == addr for t in tags):
             addr = None
         tags.append({"name": nm, "type": ty, "len": ln, "addr": addr})
+    if rng.random() < 0.06:
+        tags = lg.many_tags(rng, types=("DINT", "INT")) + tags      # auto-allocated ids beyond 10
     ops = []
     case_budget = rng.choice([488, 488, 100, 1000, 40])
     for _ in range(rng.randint(1, 8 if tier == "quick" else 14)):
